@@ -277,6 +277,26 @@ def check(run):
     run.check(same, 'D6', 'Cell.__hash__' if not same else 'hash-function-of-repr-hash',
               f'__hash__ of two cells with equal representation hash: {vrepr(hv)[:50]} / {vrepr(hv3)[:50]}', whash)
     run.evaluations += 5
+    # cells of a subclass (what `MyCell.from_boc` hands out through the `cls` hook of the parser) are cells: equal to a plain cell with the
+    # same representation hash, in both directions, and the same dictionary key
+    from ..front import ClassRef
+    it = mk(prog)
+    cellcls = prog.cls('Cell')
+    sub = ClassRef('_SubclassOfCell', ast.parse('class _SubclassOfCell(Cell):\n    pass').body[0], cellcls.module)
+    try:
+        plain = cm.new_cell(it, cm.tvm_bits(it, cm.data_bits(12, 'sub')), [])
+        subc = it.construct(sub, [cm.tvm_bits(it, cm.data_bits(12, 'sub')), ListV([])], {})
+        e1, e2 = it.cmp(ast.Eq(), plain, subc, None), it.cmp(ast.Eq(), subc, plain, None)
+        e3 = it.cmp(ast.Eq(), subc, cm.call_method(it, subc, 'copy'), None)
+        h1, h2 = models.builtin(it, 'hash', [plain], {}, None), models.builtin(it, 'hash', [subc], {}, None)
+        good = all(isinstance(e, K) and e.v is True for e in (e1, e2, e3)) and repr(h1) == repr(h2)
+        why = f'a cell and a cell of a subclass with the same content: == gives {vrepr(e1)} / {vrepr(e2)} (reversed), subclass cell == its copy {vrepr(e3)}, same __hash__: {repr(h1) == repr(h2)}'
+    except RaiseEx as e:
+        good, why = False, f'comparing a cell with a cell of a subclass raises {e}'
+    except Fail as e:
+        raise AnalysisError(f'subclass-of-Cell scenario: {e}')
+    run.check(good, 'D6', 'Cell.__eq__[subclass]' if not good else 'eq: cells of a subclass', why, weq)
+    run.evaluations += 1
     # a cell and the pruned branch standing for it (or an ordinary cell above that branch and the cell above the original): the same level-0
     # hash, different representation hashes - they must compare unequal and live under different dictionary keys
     it = mk(prog)
